@@ -23,6 +23,11 @@ class ValueTests:
 
     def value_test(self, op, a, b, e):
         """outcome of `a op b` for symbolic a/b (not linear forms); None if this is not such a comparison"""
+        if op in ("==", "!=") and (symdom.is_sym(a) or symdom.is_sym(b)) and not isinstance(a, symdom.Lin) and not isinstance(b, symdom.Lin):
+            # exact comparison: decided by identity (an independent symbol differs from every constant); special values are
+            # the business of separate instances with those entries set to the constant
+            same = dag.equal(dag.lift(a), dag.lift(b))
+            return same if op == "==" else not same
         if op not in ("<", ">", "<=", ">="):
             return None
         if not (symdom.is_sym(a) or symdom.is_sym(b)) or isinstance(a, symdom.Lin) or isinstance(b, symdom.Lin):
